@@ -972,6 +972,51 @@ fn main_check(ctx: &Ctx) -> Outcome {
         }
     }
     out.findings.extend(adapted_findings);
+    // re-entrant use: a value whose Display impl itself goes through the helper (a diagnostic printed from inside
+    // `fmt`, a part rendered ahead with the same helper) - each level must get its own adapted text
+    {
+        struct Nested(&'static str, u8);
+        impl std::fmt::Display for Nested {
+            fn fmt(&self, f: &mut std::fmt::Formatter<'_>) -> std::fmt::Result {
+                if self.1 > 0 {
+                    let inner = anstream::_macros::to_adapted_string(&Nested(self.0, self.1 - 1), &Vec::<u8>::new());
+                    write!(f, "<{}>{inner}", self.0)
+                } else {
+                    write!(f, "{}", self.0)
+                }
+            }
+        }
+        for g in GLOBALS {
+            for depth in 1..=2u8 {
+                g.write_global();
+                let text = "a\x1b[1mb\x1b[0m";
+                let r = guarded("to_adapted_string (nested)", || Ok(anstream::_macros::to_adapted_string(&Nested(text, depth), &Vec::<u8>::new())));
+                ColorChoice::Auto.write_global();
+                evals += 1;
+                let piece = |on: bool| if on { text.to_string() } else { "ab".to_string() };
+                // Vec<u8> is no terminal: only the forcing global choices keep the escapes (at every level)
+                let on = matches!(g, ColorChoice::Always | ColorChoice::AlwaysAnsi);
+                let mut expected = piece(on);
+                for _ in 0..depth {
+                    expected = format!("<{}>{expected}", piece(on));
+                }
+                let verdict = match r {
+                    Ok(got) if got == expected => None,
+                    Ok(got) => Some(format!("to_adapted_string of a value whose Display uses the helper itself (depth {depth}) gives {got:?}, expected {expected:?}")),
+                    Err(m) => Some(format!("to_adapted_string of a value whose Display uses the helper itself (depth {depth}): {m}")),
+                };
+                if let Some(m) = verdict {
+                    out.findings.push(Finding {
+                        system: "_macros::to_adapted_string (re-entrant)".into(),
+                        clause: clause_of(&m),
+                        case: vec![format!("global={g:?}"), format!("depth={depth}")],
+                        message: m,
+                        replay: json!({"kind":"stdio"}),
+                    });
+                }
+            }
+        }
+    }
 
     // Pass-through modes over a boxed writer that short-writes / fails (deviation-bounded scripts,
     // vchecks::fault_sys): every byte reported consumed must have reached the inner writer verbatim,
